@@ -81,6 +81,20 @@ def permute(prog, r, rules=True, conj=True, disj=True):
   return '\n'.join(['@Engine("sqlite");'] + stmts) + '\n'
 
 
+def permute_prog(prog, r):
+  """The program (AST) with the conjuncts of every body permuted; statements and disjuncts stay where they are."""
+  out = []
+  for d in prog:
+    rules = []
+    for rule in d['rules']:
+      nr = dict(rule)
+      if nr.get('body') is not None:
+        nr['body'] = _shuffle_prop(nr['body'], r, True, False)
+      rules.append(nr)
+    out.append(dict(d, rules=rules))
+  return out
+
+
 def _map_names(x, vf, pf):
   """Rename variables (vf) and predicates (pf) in an AST fragment."""
   if isinstance(x, tuple):
